@@ -12,6 +12,8 @@ import (
 	"io"
 	"os"
 	"path/filepath"
+	"regexp"
+	"strconv"
 	"strings"
 
 	"github.com/rhysd/actionlint"
@@ -303,7 +305,8 @@ type c06Input struct {
 }
 
 type c06Wf struct {
-	Mode     string     // plain | conflict | norows (shape of the build matrix)
+	Mode     string     // plain | conflict | norows | incconflict (shape of the build matrix)
+	Forced   int        // number of forced uses
 	Dispatch []c06Input // workflow_dispatch inputs
 	Call     []c06Input // workflow_call inputs (always typed)
 	Twin     string     // name of a workflow_call input that also exists as an untyped workflow_dispatch input
@@ -777,8 +780,15 @@ func c06GenWf(r *Rand) *c06Wf {
 	//  norows   - no rows; include = literal elements followed by elements given by literal-typed
 	//             expressions (closed objects), so that after replacing a literal element by an
 	//             any-typed expression an open object WITHOUT properties is merged with closed ones
-	mode := []string{"plain", "plain", "conflict", "conflict", "norows"}[r.Intn(5)]
+	//  incconflict - rows (plain or conflicting) AND include elements whose literal values conflict in
+	//             shape with the row of the same key, or with another include element defining the
+	//             same new key: the key is any only because of an include literal, and the forced
+	//             uses dereference through it. Replacing ONE include element (first, middle, last) or
+	//             the whole include section by an expression of unknown / open type must keep them
+	//             accepted: such an element may give any key any type.
+	mode := []string{"plain", "plain", "conflict", "conflict", "norows", "incconflict", "incconflict"}[r.Intn(7)]
 	w.Mode = mode
+	rowConflict := mode == "conflict" || mode == "incconflict" && r.Chance(1, 3)
 	w.Build = &c06Matrix{}
 	var forced []string
 	rowNames := c06PickNames(r, r.Range(1, 4))
@@ -787,7 +797,7 @@ func c06GenWf(r *Rand) *c06Wf {
 	}
 	for _, n := range rowNames {
 		first := c06GenVal(r, 2)
-		if mode == "conflict" && r.Chance(1, 3) && first.K != c06Arr {
+		if rowConflict && r.Chance(1, 3) && first.K != c06Arr {
 			// nested array whose elements conflict
 			first = &c06Val{K: c06Arr, Kids: []*c06Val{first, c06OtherShape(r, first)}}
 			if r.Bool() {
@@ -798,7 +808,7 @@ func c06GenWf(r *Rand) *c06Wf {
 		seen := map[string]bool{first.yaml(): true}
 		for i := r.Intn(3); i > 0; i-- {
 			v := first.vary(r)
-			if mode == "conflict" && r.Chance(2, 3) {
+			if rowConflict && r.Chance(2, 3) {
 				v = c06OtherShape(r, first)
 			}
 			if !seen[v.yaml()] { // the matrix rule reports duplicate values
@@ -806,7 +816,7 @@ func c06GenWf(r *Rand) *c06Wf {
 				row.Vals = append(row.Vals, v)
 			}
 		}
-		if mode == "conflict" && r.Bool() {
+		if rowConflict && r.Bool() {
 			p := r.Perm(len(row.Vals))
 			vs := make([]*c06Val, len(p))
 			for i, j := range p {
@@ -815,7 +825,7 @@ func c06GenWf(r *Rand) *c06Wf {
 			row.Vals = vs
 		}
 		w.Build.Rows = append(w.Build.Rows, row)
-		if mode == "conflict" {
+		if rowConflict {
 			// a use that is accepted only because the precise merge is any
 			t := row.Vals[0].ty()
 			for _, v := range row.Vals[1:] {
@@ -861,6 +871,64 @@ func c06GenWf(r *Rand) *c06Wf {
 			w.Build.Inc = append(w.Build.Inc, inc)
 		}
 	}
+	if mode == "incconflict" {
+		w.Build.Inc = nil
+		nInc := r.Range(2, 3)
+		for i := 0; i < nInc; i++ {
+			w.Build.Inc = append(w.Build.Inc, &c06Inc{})
+		}
+		add := func(i int, name string, v *c06Val) {
+			inc := w.Build.Inc[i]
+			for _, n := range inc.Names {
+				if n == name {
+					return
+				}
+			}
+			inc.Names = append(inc.Names, name)
+			inc.Vals = append(inc.Vals, v)
+		}
+		rowTy := func(row *c06Row) *c06Ty {
+			t := row.Vals[0].ty()
+			for _, v := range row.Vals[1:] {
+				t = c06Merge(t, v.ty())
+			}
+			return t
+		}
+		// a row key whose include value has another shape than the row
+		var cands []*c06Row
+		for _, row := range w.Build.Rows {
+			if k := rowTy(row).K; k != c06Any {
+				cands = append(cands, row)
+			}
+		}
+		if len(cands) > 0 {
+			row := cands[r.Intn(len(cands))]
+			v := c06OtherShape(r, row.Vals[0])
+			add(r.Intn(nInc), row.Name, v)
+			if c06Merge(rowTy(row), v.ty()).K == c06Any {
+				forced = append(forced, "matrix."+row.Name+"."+c06ObjKey(r, append([]*c06Val{v}, row.Vals...)))
+			}
+		}
+		// a new key defined with conflicting shapes by the first and the last element
+		key := r.Pick([]string{"extra", "exp", "more"})
+		v1 := c06GenVal(r, 1)
+		v2 := c06OtherShape(r, v1)
+		if r.Bool() {
+			v1, v2 = v2, v1
+		}
+		add(0, key, v1)
+		add(nInc-1, key, v2)
+		if c06Merge(v1.ty(), v2.ty()).K == c06Any {
+			forced = append(forced, "matrix."+key+"."+c06ObjKey(r, []*c06Val{v1, v2}))
+		}
+		for _, inc := range w.Build.Inc {
+			if len(inc.Names) == 0 {
+				add2 := "filler"
+				inc.Names = append(inc.Names, add2)
+				inc.Vals = append(inc.Vals, &c06Val{K: c06Str, S: r.Pick(c06Words)})
+			}
+		}
+	}
 	if mode == "norows" {
 		w.Build.Inc = nil
 		for k := r.Range(1, 2); k > 0; k-- {
@@ -900,6 +968,7 @@ func c06GenWf(r *Rand) *c06Wf {
 	for k := r.Range(1, 2); k > 0; k-- {
 		w.BuildSteps = append(w.BuildSteps, jg.slots(c06StepSlots, 2, 5))
 	}
+	w.Forced = len(forced)
 	for _, f := range forced {
 		w.BuildSteps = append(w.BuildSteps, map[string]string{"step-run": c06Quote("echo ${{ " + f + " }}")})
 	}
@@ -924,6 +993,27 @@ func c06GenWf(r *Rand) *c06Wf {
 		w.AfterSteps = append(w.AfterSteps, ag.slots(c06StepSlots, 2, 5))
 	}
 	return w
+}
+
+var c06ElemRe = regexp.MustCompile(`include element (\d+) of (\d+)`)
+
+// c06ElemPos: position class of the replaced include element named in a variant description.
+func c06ElemPos(desc string) string {
+	m := c06ElemRe.FindStringSubmatch(desc)
+	if m == nil {
+		return "none"
+	}
+	i, _ := strconv.Atoi(m[1])
+	n, _ := strconv.Atoi(m[2])
+	switch {
+	case n == 1:
+		return "only"
+	case i == 0:
+		return "first"
+	case i == n-1:
+		return "last"
+	}
+	return "middle"
 }
 
 type c06Variant struct {
@@ -953,7 +1043,10 @@ func c06MatrixVariants(r *Rand, w *c06Wf, pick func(*c06Wf) *c06Matrix, tag stri
 		n := w.clone()
 		d := dyn()
 		pick(n).Inc[ii].Expr = d
-		out = append(out, c06Variant{"include-element-by-expression", fmt.Sprintf("%s include element %d given by ${{ %s }}", tag, ii, d), n})
+		out = append(out, c06Variant{"include-element-by-expression", fmt.Sprintf("%s include element %d of %d given by ${{ %s }}", tag, ii, len(base.Inc), d), n})
+		n = w.clone()
+		pick(n).Inc[ii].Expr = "github.event"
+		out = append(out, c06Variant{"include-element-by-open-object", fmt.Sprintf("%s include element %d of %d given by ${{ github.event }} (open object without known properties)", tag, ii, len(base.Inc)), n})
 
 		if inc.TypedExpr != "" {
 			continue
@@ -1012,7 +1105,7 @@ func c06Variants(r *Rand, w *c06Wf) []c06Variant {
 	return out
 }
 
-var c06LintVariantKinds = []string{"row-by-expression", "row-value-by-expression", "include-element-by-expression", "include-value-by-expression", "include-by-expression", "matrix-by-expression",
+var c06LintVariantKinds = []string{"row-by-expression", "row-value-by-expression", "include-element-by-expression", "include-element-by-open-object", "include-value-by-expression", "include-by-expression", "matrix-by-expression",
 	"dispatch-input-untyped", "call-input-shadowed-by-untyped-dispatch-input", "popular-action-to-unknown", "popular-action-to-script", "popular-action-to-pathsfilter",
 	"local-action-to-unknown", "job-outputs-to-unresolvable-workflow-call", "local-workflow-call-to-unresolvable"}
 
@@ -1073,12 +1166,23 @@ func c06LintFamilies(r *Run) []*Family {
 		}
 		a.Count("lint_workflows_clean", 1)
 		a.Count("lint_clean_matrix_shape:"+w.Mode, 1)
+		if w.Mode == "incconflict" {
+			a.Count("lint_incconflict_forced_uses", w.Forced)
+		}
 		for vi, v := range c06Variants(c.R, w) {
 			vsrc := v.Wf.render()
 			got, err := c06Lint(vsrc)
 			a.Eval(1)
 			a.Count("lint_variants", 1)
 			a.Count("lint_variant:"+v.Kind, 1)
+			if w.Mode == "incconflict" {
+				switch v.Kind {
+				case "include-element-by-expression", "include-element-by-open-object":
+					a.Count("lint_incconflict_include_element_replaced:"+c06ElemPos(v.Desc), 1)
+				case "include-by-expression":
+					a.Count("lint_incconflict_include_section_replaced", 1)
+				}
+			}
 			c.Nontrivial("lint|" + v.Kind + "|" + vsrc)
 			if err != nil {
 				c.Violation("C06:lint:fatal-error", "linting the loosened workflow failed: "+err.Error(), map[string]interface{}{"src": vsrc})
@@ -1092,7 +1196,16 @@ func c06LintFamilies(r *Run) []*Family {
 			}
 			c.Logf("--- VIOLATED by %s (%s) ---\n%s--- diagnostics: %v", v.Kind, v.Desc, vsrc, diagStrings(got))
 			first := c06FirstByClass(got)
-			c.Violation("C06:lint:"+c06Class(first.Msg),
+			sig := "C06:lint:" + c06Class(first.Msg)
+			switch v.Kind {
+			case "include-element-by-expression", "include-element-by-open-object":
+				// one witness class whatever the use that is hit: an include ELEMENT of unknown
+				// type leaves a diagnostic at a use of some matrix key
+				sig = "C06:lint:unknown-include-element"
+			case "include-by-expression":
+				sig = "C06:lint:unknown-include-section"
+			}
+			c.Violation(sig,
 				fmt.Sprintf("workflow is clean with literal definitions but gets a diagnostic after: %s: %s", v.Desc, first.String()),
 				map[string]interface{}{"src": vsrc, "literal_src": src, "replacement": v.Desc, "kind": v.Kind,
 					"files":    map[string]string{".github/workflows/callee.yml": c06CalleeYAML, "act/action.yml": c06ActionYAML},
@@ -1124,7 +1237,15 @@ func c06LintFloors(r *Run) {
 	if clean*100 < n*40 {
 		r.Inconclusive(fmt.Sprintf("only %d of %d generated literal workflows were clean (floor 40%%)", clean, n))
 	}
-	for _, m := range []string{"plain", "conflict", "norows"} {
+	for _, p := range []string{"first", "middle", "last"} {
+		if r.Counter("lint_incconflict_include_element_replaced:"+p) < 40 {
+			r.Inconclusive("matrix with rows and conflicting include literals: fewer than 40 replacements of the " + p + " include element")
+		}
+	}
+	if r.Counter("lint_incconflict_include_section_replaced") < 40 || r.Counter("lint_incconflict_forced_uses") < 100 {
+		r.Inconclusive("matrix with rows and conflicting include literals: too few include-section replacements / forced uses of a key that is any through include")
+	}
+	for _, m := range []string{"plain", "conflict", "norows", "incconflict"} {
 		if r.Counter("lint_clean_matrix_shape:"+m) < 50 {
 			r.Inconclusive("fewer than 50 clean literal workflows with matrix shape " + m)
 		}
